@@ -289,6 +289,13 @@ class Interp:
 
     def reset_path(self, path):
         self.path = path
+        for g in getattr(self, 'live_generators', []):
+            try:
+                g.close()
+            except Exception:
+                pass
+        self.live_generators = []
+        self._cur_gen = None
         self.frames = []
         self.exc_stack = []
         self.heap_writes = 0
